@@ -706,13 +706,15 @@ pub struct Gen {
     /// allow agreement-only number spellings in inputs / literals
     pub odd_nums: bool,
     pub atoms: bool,
+    /// allow numbers of huge magnitude (inputs of the core tier / C25 values only)
+    pub big: bool,
     vars: Vec<String>,
     labels: Vec<String>,
 }
 
 impl Gen {
     pub fn new(seed: u64) -> Self {
-        Gen { r: Rng::new(seed), odd_nums: false, atoms: true, vars: vec![], labels: vec![] }
+        Gen { r: Rng::new(seed), odd_nums: false, atoms: true, big: true, vars: vec![], labels: vec![] }
     }
 
     fn pk(&mut self, xs: &[&'static str]) -> &'static str {
@@ -730,12 +732,40 @@ impl Gen {
     pub fn num(&mut self) -> V {
         let k = self.r.below(20);
         if k == 0 && self.odd_nums {
-            V::Num(self.pk(&ODD_NUMS).to_string())
+            loop {
+                let t = self.pk(&ODD_NUMS);
+                if self.big || t.parse::<f64>().map(|x| x.abs() < 1.0e6).unwrap_or(false) {
+                    return V::Num(t.to_string());
+                }
+            }
         } else if k <= 2 && self.atoms {
-            V::Num(self.pk(&ATOMS).to_string())
+            loop {
+                let t = self.pk(&ATOMS);
+                if self.big || t.parse::<f64>().map(|x| x.abs() < 1.0e6).unwrap_or(false) {
+                    return V::Num(t.to_string());
+                }
+            }
         } else {
             V::int(self.small_int())
         }
+    }
+
+    /// numbers spliced into PROGRAM text are never of huge magnitude: `range(0; 1e20)`,
+    /// `"ab" * 1e10` and friends are resource bombs for the code under test, not test cases
+    pub fn lit_num(&mut self) -> V {
+        let save = self.big;
+        self.big = false;
+        let v = self.num();
+        self.big = save;
+        v
+    }
+
+    pub fn lit_scalar(&mut self) -> V {
+        let save = self.big;
+        self.big = false;
+        let v = self.scalar();
+        self.big = save;
+        v
     }
 
     pub fn string(&mut self) -> V {
@@ -853,7 +883,7 @@ impl Gen {
 
     fn lit_of(&mut self, sh: Sh) -> Ast {
         match sh {
-            Sh::Num => Ast::Lit(self.num()),
+            Sh::Num => Ast::Lit(self.lit_num()),
             Sh::Str => Ast::Lit(self.string()),
             Sh::Bool => Ast::Lit(V::Bool(self.r.coin())),
             Sh::Arr => {
@@ -861,18 +891,18 @@ impl Gen {
                 if n == 0 {
                     Ast::Arr0
                 } else {
-                    let mut e = Ast::Lit(self.scalar());
+                    let mut e = Ast::Lit(self.lit_scalar());
                     for _ in 1..n {
-                        e = Ast::Comma(b(e), b(Ast::Lit(self.scalar())));
+                        e = Ast::Comma(b(e), b(Ast::Lit(self.lit_scalar())));
                     }
                     Ast::Arr(b(e))
                 }
             }
             Sh::Obj => {
                 let n = self.r.below(3) as usize;
-                Ast::Obj((0..n).map(|_| (self.key_lit(), Ast::Lit(self.scalar()))).collect())
+                Ast::Obj((0..n).map(|_| (self.key_lit(), Ast::Lit(self.lit_scalar()))).collect())
             }
-            Sh::Any => Ast::Lit(self.scalar()),
+            Sh::Any => Ast::Lit(self.lit_scalar()),
         }
     }
 
@@ -882,7 +912,7 @@ impl Gen {
             0 => Ast::Comma(b(self.expr(d, sh).0), b(self.expr(d, sh).0)),
             1 => call("range", vec![lit_i(self.r.below(4) as i64)]),
             2 if sh == Sh::Arr || sh == Sh::Obj => Ast::Iter,
-            _ => Ast::Comma(b(Ast::Lit(self.scalar())), b(Ast::Lit(self.scalar()))),
+            _ => Ast::Comma(b(Ast::Lit(self.lit_scalar())), b(Ast::Lit(self.lit_scalar()))),
         }
     }
 
@@ -890,7 +920,7 @@ impl Gen {
         let d1 = d.saturating_sub(1);
         match self.r.below(6) {
             0 => Ast::Cmp(*self.r.pick(&["==", "!=", "<", "<=", ">", ">="]), b(self.expr(d1, sh).0), b(self.expr(d1, sh).0)),
-            1 => Ast::Cmp(*self.r.pick(&["<", ">", "==", ">="]), b(Ast::Id), b(Ast::Lit(self.scalar()))),
+            1 => Ast::Cmp(*self.r.pick(&["<", ">", "==", ">="]), b(Ast::Id), b(Ast::Lit(self.lit_scalar()))),
             2 => pipe(call0("type"), Ast::Cmp("==", b(Ast::Id), b(lit_s(self.pk(&["number", "string", "array", "object", "null", "boolean"]))))),
             3 => Ast::And(b(self.expr(d1, sh).0), b(self.expr(d1, sh).0)),
             4 => Ast::Or(b(self.expr(d1, sh).0), b(self.expr(d1, sh).0)),
@@ -1018,7 +1048,7 @@ impl Gen {
     fn raise(&mut self, d: u32, sh: Sh) -> Ast {
         match self.r.below(4) {
             0 => Ast::Err0,
-            1 => Ast::Err(b(Ast::Lit(self.scalar()))),
+            1 => Ast::Err(b(Ast::Lit(self.lit_scalar()))),
             2 => Ast::Err(b(self.expr(d.min(1), sh).0)),
             _ => Ast::Err(b(lit_s("boom"))),
         }
@@ -1052,7 +1082,7 @@ impl Gen {
             Sh::Num => match self.r.below(12) {
                 0..=4 => {
                     let o = *self.r.pick(&["+", "-", "*", "%", "/", "+", "-"]);
-                    let rhs = if o == "/" || o == "%" { lit_i(*self.r.pick(&[1, 2, 3, -2, 0])) } else { Ast::Lit(self.num()) };
+                    let rhs = if o == "/" || o == "%" { lit_i(*self.r.pick(&[1, 2, 3, -2, 0])) } else { Ast::Lit(self.lit_num()) };
                     if self.r.coin() {
                         (Ast::Bin(o, b(Ast::Id), b(rhs)), Sh::Num)
                     } else {
@@ -1062,10 +1092,10 @@ impl Gen {
                 5 => (Ast::Neg(b(Ast::Id)), Sh::Num),
                 6 => (call0("tostring"), Sh::Str),
                 7 => (call0("tojson"), Sh::Str),
-                8 => (call("range", vec![Ast::Id]), Sh::Num),
+                8 => (call("range", vec![Self::clamped()]), Sh::Num),
                 9 => (call0("length"), Sh::Num),
-                10 => (call("range", vec![lit_i(self.r.below(3) as i64), Ast::Id]), Sh::Num),
-                _ => (Ast::Cmp(*self.r.pick(&["<", ">=", "=="]), b(Ast::Id), b(Ast::Lit(self.num()))), Sh::Bool),
+                10 => (call("range", vec![lit_i(self.r.below(3) as i64), Self::clamped()]), Sh::Num),
+                _ => (Ast::Cmp(*self.r.pick(&["<", ">=", "=="]), b(Ast::Id), b(Ast::Lit(self.lit_num()))), Sh::Bool),
             },
             Sh::Str => match self.r.below(12) {
                 0 | 1 => (Ast::Bin("+", b(Ast::Id), b(Ast::Lit(self.string()))), Sh::Str),
@@ -1157,7 +1187,7 @@ impl Gen {
                     let s = *self.r.pick(&[Sh::Num, Sh::Str, Sh::Arr, Sh::Obj]);
                     (self.lit_of(s), s)
                 }
-                13 => (Ast::Cmp(*self.r.pick(&["==", "<", ">="]), b(Ast::Id), b(Ast::Lit(self.scalar()))), Sh::Bool),
+                13 => (Ast::Cmp(*self.r.pick(&["==", "<", ">="]), b(Ast::Id), b(Ast::Lit(self.lit_scalar()))), Sh::Bool),
                 14 => {
                     let s = *self.r.pick(&[Sh::Obj, Sh::Arr]);
                     (call("in", vec![self.lit_of(s)]), Sh::Bool)
@@ -1165,6 +1195,11 @@ impl Gen {
                 _ => (Ast::Id, Sh::Any),
             },
         }
+    }
+
+    /// `.` clamped for use as a loop bound: (if . > 9 then 3 else . end)
+    fn clamped() -> Ast {
+        Ast::If(b(Ast::Cmp(">", b(Ast::Id), b(lit_i(9)))), b(lit_i(3)), b(Ast::Id))
     }
 
     fn entry_fn(&mut self, d: u32) -> Ast {
